@@ -38,6 +38,22 @@ CLAIMED = {
         "is argued in DESIGN.md, not mechanised; a BOUNDED exhaustive differential run on the real reader stands in for it; hence 'other'.",
    note="Bounded stand-in: all streams of 3 prefixes x up to 4 (quick) / 6 (thorough) octets over a 5-letter alphabet x every single cut and byte-at-a-time x 4 configurations, plus random multi-cut streams.",
    technique=DED + " for per-step locality and the fold-split lemma; bounded differential for the composition", design="DESIGN.md section 9 C06"),
+ "C07": dict(level="proof",
+   text="Deductive through the grammar layer: the real Aidon decode functions are executed symbolically over the dumped construct object graph for every documented list (bare body and LLC frame), with every register, scaler, character and date-time field symbolic "
+        "over its full range: no exception, exactly the expected keys, value == register x 10^scaler (exact integer, or the correctly rounded float of the exact decimal), text verbatim, clock element, manufacturer; frame and body agree. Lists are enumerated, values are not.",
+   note="Assumed: construct 2.10.70 combinator parse rules (cross-checked by replaying every model and random instances through the real parse), float(Decimal) correctly rounded, datetime record model. A random-instance differential run on the real decoders is an additional bounded cross-check.",
+   technique=DED + "; symbolic execution of the real construct grammar with fixed layouts (grammar layer) + Python layer for lambdas and normalisers", design="DESIGN.md section 9 C07"),
+ "C08": dict(level="other",
+   text="Deductive through the grammar layer for the five positional layouts and the Swedish OBIS list, bare and framed, all register values symbolic: positional field mapping, currents == register/1000, voltages == register/10, others unchanged, text verbatim, clock rule. "
+        "The float lemma round(v*10**-k, k) == v/10**k (all 32-bit v) is assumed in the VCs and decided by a sweep on CPython floats - strided in quick, all 2^32 in thorough; hence 'other'.",
+   note="Assumed: construct parse rules, datetime model; float lemma by exhaustive enumeration (thorough).", technique=DED + " via the grammar layer; exhaustive float sweep for the rounding lemma", design="DESIGN.md section 9 C08"),
+ "C09": dict(level="other",
+   text="Deductive through the grammar layer for the Kamstrup 10-second and hourly lists (one/three phase), with null-data padding, direct and CT (685...) meter types, bare and framed: currents == register/100 resp. /1000, energies == register x 10, others unchanged, text verbatim, APDU clock. Float lemma by sweep; hence 'other'.",
+   note="Assumed: construct parse rules, datetime model; float lemma by exhaustive enumeration (thorough).", technique=DED + " via the grammar layer; exhaustive float sweep for the rounding lemma", design="DESIGN.md section 9 C09"),
+ "C10": dict(level="proof",
+   text="Deductive through the grammar layer: a symbolic 12-octet date-time (all valid dates 1..9999, all times, hundredths 0..99/0xFF, deviation -720..720/0x8000, all 256 status octets, any day of week) in each of the six syntactic positions decodes to the same civil fields, "
+        "microseconds == hundredths x 10000, UTC offset == -deviation or naive; the status octet is consumed exactly once on either branch.",
+   note="Assumed: construct parse rules (Peek/If/BitStruct/ExprAdapter/Computed), datetime/timezone/timedelta record model with documented range checks.", technique=DED + " via the grammar layer", design="DESIGN.md section 9 C10"),
  "C12": dict(level="proof",
    text="Deductive: per-call contract of decode_message_payload and decode_message from the real source, decoder table read from the source, decoders abstract (outcome = function of the payload): None exactly when every decoder rejects, "
         "otherwise the first accepting decoder in cyclic order from the remembered one (hence the remembered one whenever it accepts), previous_success_decoder names it and is unchanged when nobody accepts, decode_message agrees with "
